@@ -275,9 +275,14 @@ fn changed_fields(a: &Certificate, b: &Certificate) -> Vec<&'static str> {
     if a.metadata.protocol_version != b.metadata.protocol_version {
         out.push("protocol_version");
     }
-    // protocol parameters are compared at the protocol's fixed-point precision (their PartialEq)
-    if a.metadata.protocol_parameters != b.metadata.protocol_parameters {
-        out.push("protocol_parameters");
+    // protocol parameters are compared at the protocol's fixed-point precision (U8F24), by the
+    // harness itself (not through the PartialEq of the code under test)
+    {
+        let (p, q) = (&a.metadata.protocol_parameters, &b.metadata.protocol_parameters);
+        let fx = |x: f64| fixed::types::U8F24::checked_from_num(x).map(|v| v.to_bits());
+        if p.k != q.k || p.m != q.m || fx(p.phi_f) != fx(q.phi_f) {
+            out.push("protocol_parameters");
+        }
     }
     if a.metadata.initiated_at != b.metadata.initiated_at {
         out.push("initiated_at");
